@@ -258,6 +258,13 @@ class Harness:
             else:
                 upd = SimpleStreamUpdater()
             self.experiment = {"info": info, "updater": upd}
+        # events the model builds in its constructor, long before initialize, and schedules later
+        from vlib.refdevs import pre_tags
+        self.pre_events = {}
+        for tag in pre_tags(prog):
+            a = next(x for acts in [prog.get("init", []), prog.get("initial", [])] + list(prog["handlers"].values()) for x in acts
+                     if x and x[0] == "pre" and x[3] == tag)
+            self.pre_events[tag] = _labelled_event()(time_value(prog, a[1]), self.model, "h", a[2], tag=tag)
         if prog.get("initial"):
             self.sim.add_initial_method(self.model, "initial")      # registered once, before the first initialize
         self.types = [SimulatorInterface.STARTING_EVENT, SimulatorInterface.START_EVENT, SimulatorInterface.STOPPING_EVENT,
@@ -285,7 +292,7 @@ class Harness:
         sim = model.simulator
         for i, a in enumerate(actions):
             k = a[0]
-            if k in ("rel", "abs", "now", "ev", "bad_rel", "bad_abs"):
+            if k in ("rel", "abs", "now", "ev", "pre", "bad_rel", "bad_abs"):
                 before = sim.eventlist().size()
                 out = "ok"
                 ev = None
@@ -296,6 +303,8 @@ class Harness:
                         ev = sim.schedule_event_abs(time_value(self.prog, a[1]), model, "h", a[2], tag=a[3])
                     elif k == "now":
                         ev = sim.schedule_event_now(model, "h", a[1], tag=a[2])
+                    elif k == "pre":
+                        ev = sim.schedule_event(self.pre_events[a[3]])
                     elif k == "ev":
                         # a user-defined event class (public API: schedule_event takes any SimEventInterface)
                         ev = sim.schedule_event(_labelled_event(direct=sum(map(ord, a[3])) % 2 == 0)(time_value(self.prog, a[1]), model, "h", a[2], tag=a[3]))
